@@ -165,7 +165,7 @@ def gen_dataset(s: Choices, vdtype: str, tier: str, max_n: int = 200, allow_mult
 
 def gen_mask(s: Choices, ds, kinds=("none", "bool", "slice", "positions")):
     n = ds["n"]
-    w = {"none": 5, "bool": 4, "slice": 2, "positions": 2}
+    w = {"none": 5, "bool": 4, "slice": 3, "positions": 2}
     mk = s.weighted([(w[k], k) for k in kinds])
     if mk == "none":
         return {"kind": "none"}
@@ -186,9 +186,14 @@ def gen_mask(s: Choices, ds, kinds=("none", "bool", "slice", "positions")):
         return {"kind": "bool", "bits": bits, "container": s.weighted([(3, "ndarray"), (1, "series")])}
     if mk == "slice":
         def bound():
-            k = s.draw(4)
+            k = s.draw(6)
             if k == 0:
                 return None
+            if k >= 4:
+                # on or next to a likely chunk boundary (halves, thirds, quarters of the rows)
+                den = [4, 2, 3][s.draw(3)]
+                v = (n * (1 + s.draw(den - 1 if den > 1 else 1))) // den + s.draw(3) - 1
+                return max(0, min(n, v)) if k == 4 else -max(0, min(n, v))
             v = s.draw(n + 2)
             return v if k in (1, 2) else -v
         return {"kind": "slice", "start": bound(), "stop": bound()}
